@@ -231,6 +231,11 @@ def run(ctx):
         ctx.check("C10-R4", mf, "negate forwarded in 2-d branch",
                   "negate" in inv, "the 2-d branch drops the negate option",
                   node=c)
+    # ---------------------------------------------------------------- R6
+    ctx.rule("C10-R6", "empty tables / position lists: the position array "
+             "handed to the region test keeps two columns for zero rows")
+    from .c09 import two_column_rule
+    two_column_rule(ctx, "C10-R6", prog.func("regions.Region.radec2sky"))
     # ---------------------------------------------------------------- R5
     n = link.check(ctx, sorted(scope) + ["regions.Region.sky_within"],
                    rule="C10-R5", what="masking entry points")
